@@ -33,7 +33,7 @@ NSHARDS = {"quick": 16, "thorough": 16}
 N_SNAP = {"quick": 60, "thorough": 1500}
 N_JIT = {"quick": 40, "thorough": 800}
 N_SENS = {"quick": 1, "thorough": 6}
-REQUIRE = {"snap:on_grid_strict": 5000, "snap:off_grid": 3000, "snap:near_grid": 300, "snap_double_checked": 8000,
+REQUIRE = {"snap:on_grid_strict": 5000, "snap:off_grid": 3000, "snap:near_grid": 300, "snap_double_checked": 8000, "snap:beyond_2^23_ticks": 1000,
            "jitter_pipelines": 3000, "jitter_pairs_same_seed": 100, "jitter_pairs_diff_seed": 100, "jitter_reordered_outputs": 50,
            "sensitivity_samples_compared": 32}
 TPS_LIST = [1, 2, 3, 5, 7, 10, 20, 60, 100, 1000, 10000, 100000]
@@ -53,9 +53,10 @@ def cases(tier, seed, shard, nshards):
         tps = rng.choice(TPS_LIST + [rng.randint(1, 100000)])
         texts = []
         n = rng.randint(20, 200)
-        big = rng.random() < 0.1
+        big = rng.random() < 0.25
+        top = rng.choice([10 ** 6, 10 ** 7, 5 * 10 ** 7, 4 * 10 ** 8])   # beyond 2**23 ticks a float product has < 1e-9 tick resolution
         for j in range(n):
-            k = rng.randint(0, 10 ** 6 if big else 5000)
+            k = rng.randint(0, top if big else 5000)
             cls = rng.choice(["decimal", "kfl", "flk", "off", "near+", "near-"])
             if cls == "decimal" and finite_decimal(tps):
                 texts.append(dec_text(Fraction(k, tps)))
@@ -152,6 +153,8 @@ def run_snap(case, mon):
             xout = exact_ticks(tout, tps)
             detail = dict(text=tin, out=tout, tps=tps)
             mon.count("snap:on_grid_strict" if (strict and xin.denominator == 1) else ("snap:off_grid" if strict else "snap:near_grid"))
+            if xin >= 2 ** 23:
+                mon.count("snap:beyond_2^23_ticks")
             tol = grid_band(round(xin))
             # output must sit on a grid point (within float rounding of tick/tps)
             k = round(xout)
